@@ -1,7 +1,7 @@
 """Generator of *core* programs (the sub-language modelled by lean/HidVerif/Compiler/Core.lean):
 one @is_you(), int locals, + - * / %, unary + -, comparisons, and/or/not, declarations, assignments,
 op-assignments, write(int), writeln, character output, blocks, if/else, while, for, break, continue, return,
-user functions, try/undo with defeat calls, try/stop with !is_defeat() / !truth_is_defeat() and calls of defeat functions."""
+user functions, try/undo with defeat calls, try/stop with !is_defeat()."""
 import random
 
 
@@ -105,7 +105,7 @@ class G:
             return ['%s%s %s %s;' % (ind, self.r.choice(vs), op, rhs)]
         usable = list(self.funcs)
         force = False
-        if self.in_try in ('stop', 'dfn') and self.dfuncs and self.r.random() < 0.5:
+        if self.in_try in ('stop', 'undo', 'dfn') and self.dfuncs and self.r.random() < 0.5:
             usable = list(self.dfuncs)
             force = self.r.random() < 0.4
         if usable and (force or self.r.random() < 0.22):
